@@ -21,6 +21,8 @@ func init() {
 	// static tags need their AST by hand
 	tagAST[`a`] = &EPath{Steps: []*Stp{{Axis: "child", Test: NodeTest{Kind: "name", Local: "a"}}}}
 	tagAST[`b`] = &EPath{Steps: []*Stp{{Axis: "child", Test: NodeTest{Kind: "name", Local: "b"}}}}
+	tagAST[`count(*)`] = call("count", &EPath{Steps: []*Stp{{Axis: "child", Test: NodeTest{Kind: "any"}, Abbrev: true}}})
+	tagAST[`count(preceding-sibling::*)`] = call("count", &EPath{Steps: []*Stp{{Axis: "preceding-sibling", Test: NodeTest{Kind: "any"}}}})
 	// Go types cannot be rebuilt from a file: the family is re-run from the recorded seed and
 	// the recorded case is looked up among the disagreements it finds now
 	replayers["unm"] = func(rn *Runner, rp *Replay) (string, string, bool) {
@@ -73,6 +75,23 @@ type unexp5 struct {
 		X string `xsel:"a"`
 	} `xsel:"b"`
 	D []string `xsel:"b"`
+}
+
+// two DIFFERENT struct types with the same package-qualified name (function-local types), the same field names
+// and different tags: whatever is remembered per type must be remembered per reflect.Type
+func sameNameA() reflect.Type {
+	type Row struct {
+		Name string `xsel:"a"`
+		N    int    `xsel:"count(*)"`
+	}
+	return reflect.TypeOf(Row{})
+}
+func sameNameB() reflect.Type {
+	type Row struct {
+		Name string `xsel:"b"`
+		N    int    `xsel:"count(preceding-sibling::*)"`
+	}
+	return reflect.TypeOf(Row{})
 }
 
 // ---- descriptors by reflection ----
@@ -507,7 +526,7 @@ func famC19(rn *Runner) {
 			case k < 8:
 				bt = u.structType(2)
 			case k == 8:
-				bt = pick(r, []reflect.Type{reflect.TypeOf(unexp{}), reflect.TypeOf(unexp3{}), reflect.TypeOf(unexp4{})})
+				bt = pick(r, []reflect.Type{reflect.TypeOf(unexp{}), reflect.TypeOf(unexp3{}), reflect.TypeOf(unexp4{}), sameNameA(), sameNameB(), reflect.SliceOf(sameNameB()), reflect.SliceOf(sameNameA())})
 			case k == 9:
 				bt = pick(r, []reflect.Type{reflect.TypeOf(unexp2{}), reflect.TypeOf(unexp5{}), reflect.TypeOf([]unexp3{}), reflect.TypeOf(struct {
 					A string `xsel:"a"`
